@@ -290,3 +290,68 @@ def reachable(d):
     for cn in d["corder"]:
         visit(cn)
     return cs, ps, ts
+
+
+def deep_state(obj, _seen=None, _depth=0):
+    """Canonical snapshot of everything reachable from `obj` through public attributes and containers (names starting with '_'
+    are private caches and left out; callables, modules and XML elements are not state).  Used by C15: writing a definition must
+    leave this snapshot unchanged."""
+    import enum
+    import types
+    if _seen is None:
+        _seen = {}
+    if obj is None or isinstance(obj, (bool, int, str, bytes)):
+        return repr(obj)
+    if isinstance(obj, float):
+        return "f:" + repr(obj)
+    if isinstance(obj, enum.Enum):
+        return f"E:{type(obj).__name__}.{obj.name}"
+    if id(obj) in _seen:
+        return f"@{_seen[id(obj)]}"
+    if _depth > 200:
+        return "..."
+    if isinstance(obj, dict):
+        _seen[id(obj)] = len(_seen)
+        return ["D"] + [[deep_state(k, _seen, _depth + 1), deep_state(v, _seen, _depth + 1)] for k, v in obj.items()]
+    if isinstance(obj, (list, tuple)) and not hasattr(obj, "__dict__"):
+        _seen[id(obj)] = len(_seen)
+        fields = getattr(obj, "_fields", None)
+        return ["L", type(obj).__name__ if fields else ""] + [deep_state(v, _seen, _depth + 1) for v in obj]
+    if isinstance(obj, (set, frozenset)):
+        return ["S"] + sorted(json_key(deep_state(v, _seen, _depth + 1)) for v in obj)
+    if callable(obj) or isinstance(obj, types.ModuleType) or type(obj).__module__.startswith("lxml"):
+        return "<skip>"
+    d = getattr(obj, "__dict__", None)
+    if d is None:
+        slots = [s for c in type(obj).__mro__ for s in getattr(c, "__slots__", ())]
+        if not slots:
+            return "<opaque " + type(obj).__name__ + ">"
+        d = {s: getattr(obj, s) for s in slots if hasattr(obj, s)}
+    _seen[id(obj)] = len(_seen)
+    out = ["O", type(obj).__name__]
+    if isinstance(obj, (list, tuple)):
+        out.append(["items"] + [deep_state(v, _seen, _depth + 1) for v in obj])
+    for k in sorted(d):
+        if not k.startswith("_"):
+            out.append([k, deep_state(d[k], _seen, _depth + 1)])
+    return out
+
+
+def json_key(x):
+    import json
+    return json.dumps(x, sort_keys=True, default=str)
+
+
+def state_diff(a, b, path="definition"):
+    """first place where two deep_state snapshots differ (text)"""
+    if type(a) is not type(b):
+        return f"{path}: {str(a)[:80]} -> {str(b)[:80]}"
+    if isinstance(a, list):
+        if len(a) != len(b):
+            return f"{path}: {len(a)} entries -> {len(b)}"
+        for i, (x, y) in enumerate(zip(a, b)):
+            if x != y:
+                name = x[0] if isinstance(x, list) and x and isinstance(x[0], str) and len(x) == 2 else str(i)
+                return state_diff(x, y, f"{path}.{name}")
+        return None
+    return None if a == b else f"{path}: {str(a)[:80]} -> {str(b)[:80]}"
